@@ -19,6 +19,8 @@ type GenOpts struct {
 	ManyGroups bool
 	// LeadSBurst puts a long burst of scalar loads (and a store of its value) first
 	LeadSBurst bool
+	// SparseWGIDs lets code objects leave out work-group id SGPRs of dimensions with a single group
+	SparseWGIDs bool
 	// LateWave (with Comm): right before the first LDS exchange, wavefront 0 of every group runs a
 	// long loop, so it arrives at the barrier long after its siblings
 	LateWave bool
@@ -390,6 +392,14 @@ func GenProgram(t *rapid.T, o GenOpts) *Program {
 			p.PadVGPR = rapid.IntRange(0, room).Draw(t, "padvgpr")
 		}
 		p.PadSGPR = rapid.SampledFrom([]int{0, 8, 16, 40, 64, 70}).Draw(t, "padsgpr")
+	}
+	if o.SparseWGIDs {
+		// leave out the work-group id of a dimension along which the grid has a single group
+		for d := 0; d < 3; d++ {
+			if p.Geo.Grid[d] <= uint32(p.Geo.WG[d]) && rapid.Bool().Draw(t, "nowgid") {
+				p.NoWGID[d] = true
+			}
+		}
 	}
 	if o.TrailSLoad && rapid.IntRange(0, 2).Draw(t, "trail") == 0 {
 		// a register that matters to whoever owns the cells next: an output pointer, an input
